@@ -76,6 +76,10 @@ CHECKS = {
     technique='TLA+ PubSub.tla listener turn (Consume) with junk classes, forged/foreign callback messages, backend iterator failures and raising application code; TLC invariants + exhaustive graph validation with the library\'s real _thread() loop',
     text='C15_ListenerAlive and C15_EchoAndJunkChangeNothing on the spec; on the real PubSubManager and AsyncPubSubManager every element of a 29-variant junk catalogue (undecodable bytes, pickles/JSON of non-dicts, dicts without method, unknown methods, missing/ill-typed/surplus fields, values on which the loop\'s own test raises) plus a failing backend iterator is sent down the channel in every quiet state of a small cluster, every listener takes its turn on it, and a sentinel broadcast sent right behind it must be applied by every listener with its exact effect (JunkProbe action); junk and faults are also interleaved with in-flight messages, own-host echoes, callback messages addressed to other hosts / unknown ids, application callbacks that raise and a disconnect handler that raises inside the listener. Every step is re-executed by TLC against PubSub.tla (state of every host, cursors, liveness of the loop, outputs).',
     ref='4/C15', note=SRV_NOTE + ' The junk classification is the reference reading in harness/pubsub.py (validated against the unchanged tree: a wrong class is a rejected edge). Redis retry loops: see evidence (fake redis module) when built.'),
+ 'C18': dict(
+    technique='TLA+ Admin.tla (Accept over credential VALUES, admin requests gated by mode/read_only, everything else = SioServer) model-checked by TLC; real instrumented Server/AsyncServer: credential cases judged by TLC (AdminCases.tla), exhaustive transition-graph validation with an admin client attached (AdminGraph.tla), and the plain SioServer graphs re-explored on instrumented servers',
+    text='(a) Credentials: for auth in {False, dict, list of dicts, sync predicate, coroutine predicate} x (the specification payload set: absent, None, scalars, list containing the credentials, equal, other member, subset, superset, wrong value, type-confused, case-changed, nested, {} + seeded mutations of the credentials) a real CONNECT to the admin namespace is sent to a freshly instrumented real server that also holds an application client; TLC evaluates Accept on the values actually sent and demands CONNECT iff entitled, CONNECT_ERROR "authentication failed" and no membership otherwise, nothing else on the server touched; TLC also checks AcceptOnlyWhenEntitled on the spec. (b) Gating: with an authenticated admin attached, every admin request {emit, join, leave, _disconnect} x room filter from every reachable state: in read_only or production mode UNCHANGED application state and no packet/handler (C18_GatedRequestsDoNothing), in development read-write exactly the corresponding server call; every edge re-executed by TLC. (c) Transparency: the SioServer alphabets (acks, events, lifecycle, rooms, sessions, residue, hostile) explored exhaustively on instrumented servers (development/production, admin attached or not, projection hiding the admin namespace and transport) must yield exactly the plain SioServer graph (every edge + equal state counts).',
+    ref='4/C18', note=SRV_NOTE + ' The periodic server_stats task is not started and the instrumentation\'s sleep(0.1) is a no-op in the harness; engine.io Socket class patches of instrument() are undone right after the call (those entry points are HTTP/WebSocket glue the in-memory substrate never uses).'),
  'C16': dict(
     technique='TLA+ SioServer.tla (sessions config) + exhaustive graph validation with the real engine.io session store',
     text='C16_SessionIsolation: get_session/session() return the declared contents for that client+namespace, never a foreign value; known finding D6 (session survives a namespace-level disconnect) is modelled exactly, the design without it is model-checked.',
